@@ -6,6 +6,8 @@ CONSTANTS
   Miuxs = {0}
   Rws = {1}
   Sym = {0}
+  MemSapCodes = {0}
+  FrmrSapCodes = {0}
   Alpha = {0, 1, 2, 3, 5, 6, 8, 9, 10, 65, 240, 255}
 INVARIANT ReEncode
 INVARIANT TopSame
